@@ -83,7 +83,7 @@ def _transfer_branch(op: str, prev_digest: str, blocks: dict) -> str:
     if bk[2] == "-":
         return "nothing-stored"
     if srv[4] != "-":
-        return "ok-stale-download-reply-blocked" if blocks.get(1) else "ok-download-kept"
+        return "reply-blocked-leftover-present(F-C17-2 path)" if blocks.get(1) else "ok-leftover-replaced"
     return "reply-blocked-no-copy(F-33 path)" if blocks.get(1) else "ok-fresh"
 
 
@@ -158,6 +158,10 @@ def run(ctx: Ctx):
             ctx.count("backup_server_ip:None")
         blocks = {}
         prev = ""
+        maxnow = case["max"]
+        for op in case["ops"]:
+            if op[0] == "dmp":
+                ctx.count(f"dmp:p_scan={op[4] / 1000},p_attack={op[5] / 1000}:scan={int(op[7])},attack={int(op[8])}")
         for q, m in zip(lines, model):
             w = q.split()
             if w[0] in ("reset", "new", "cfg"):
@@ -174,12 +178,14 @@ def run(ctx: Ctx):
                 ctx.count(f"op:{w[0]}:{w[-1] if w[0] != 'dl' else w[1]}")
             if w[0] == "svcin":
                 ctx.count("result:svcin:" + ("raised" if "rej=R" in m else "refused" if "rej=1" in m else "replaced") + (":configured" if len(w) > 1 else ":bare"))
+                if "rej=0" in m:
+                    maxnow = 100   # a new instance: default max_sessions
             if w[0] == "restore" and prev:
                 ctx.count("restore:leftover-before=" + prev.split()[0][4:].split(",")[4] + ":" + m.split()[0])
             if w[0] == "connect" and prev:
                 srvp = prev.split()[0][4:]
                 nconn = 0 if "[]" in srvp else srvp[srvp.index("[") + 1:srvp.index("]")].count("@")
-                ctx.count("connect:table=" + ("full" if nconn >= case["max"] else "one-below" if nconn + 1 == case["max"] else "room") + ":" + m.split()[2])
+                ctx.count("connect:table=" + ("full" if nconn >= maxnow else "one-below" if nconn + 1 == maxnow else "room") + ":" + m.split()[2])
             if w[0] == "dm":
                 ctx.count(f"dm:scan={w[3]},attack={w[4]},request={w[5]}")
             if " | " in m:
